@@ -160,41 +160,45 @@ impl C17 {
         C17 { label: label.to_string(), tx, events, max_live, baseline, id_bound }
     }
 
-    /// Packets the client must write on a resumed connection, in order.
-    fn expected_replay(retained: &[Live], release: &[(u16, u8)]) -> Vec<Vec<u8>> {
-        let mut v = Vec::new();
-        for (pid, _) in release {
-            v.push(vec![0x62, 0x03, (*pid >> 8) as u8, *pid as u8, 0x00]);
-        }
-        for l in retained {
-            let mut b = l.first.clone();
-            b[0] |= 0x08;
-            v.push(b);
-        }
-        v
-    }
-
     fn check_replay(written: &[u8], retained: &[Live], release: &[(u16, u8)], when: &str, viol: &mut Vec<(String, String)>) {
-        let want = Self::expected_replay(retained, release);
-        let mut got: Vec<Vec<u8>> = Vec::new();
+        // what must be re-sent: a PUBREL per exchange awaiting PUBCOMP (in PUBREC order) and every retained
+        // packet as first transmitted, DUP bit aside (in acceptance order). The relative order of the two
+        // groups, and the optional-field encoding of PUBREL, are the implementation's choice.
+        let want_rel: Vec<u16> = release.iter().map(|r| r.0).collect();
+        let want_ret: Vec<Vec<u8>> = retained
+            .iter()
+            .map(|l| {
+                let mut b = l.first.clone();
+                b[0] |= 0x08;
+                b
+            })
+            .collect();
+        let mut got_rel: Vec<u16> = Vec::new();
+        let mut got_ret: Vec<Vec<u8>> = Vec::new();
+        let mut junk: Option<Vec<u8>> = None;
         let mut off = 0;
         while off < written.len() {
             match mr::fixed_header(&written[off..]) {
                 Ok(fh) if off + fh.total() <= written.len() => {
                     let mut b = written[off..off + fh.total()].to_vec();
                     off += fh.total();
-                    if matches!(b[0] >> 4, 3 | 8 | 10) {
-                        b[0] |= 0x08; // DUP is the one bit allowed to differ
+                    match mr::decode_client(&b) {
+                        Ok((CPacket::Ack(a), _)) if a.kind == mr::AckKind::PubRel && a.reason == 0 => got_rel.push(a.pid),
+                        _ => {
+                            if matches!(b[0] >> 4, 3 | 8 | 10) {
+                                b[0] |= 0x08; // DUP is the one bit allowed to differ
+                            }
+                            got_ret.push(b);
+                        }
                     }
-                    got.push(b);
                 }
                 _ => {
-                    got.push(written[off..].to_vec());
+                    junk = Some(written[off..].to_vec());
                     break;
                 }
             }
         }
-        if got != want {
+        if got_rel != want_rel || got_ret != want_ret || junk.is_some() {
             let kinds: std::collections::BTreeSet<&str> = retained
                 .iter()
                 .map(|l| match l.kind {
@@ -206,10 +210,11 @@ impl C17 {
             viol.push((
                 format!("C17:A1-retransmission-differs:{}-{}", when, kinds.into_iter().collect::<Vec<_>>().join("+")),
                 format!(
-                    "{}: a resumed connection wrote [{}], the first transmissions (DUP aside) were [{}]",
+                    "{}: a resumed connection wrote {} ; expected PUBRELs for {:?} and the first transmissions (DUP aside) [{}]",
                     when,
-                    got.iter().map(|b| mr::hex(b)).collect::<Vec<_>>().join(" "),
-                    want.iter().map(|b| mr::hex(b)).collect::<Vec<_>>().join(" ")
+                    mr::hex(written),
+                    want_rel,
+                    want_ret.iter().map(|b| mr::hex(b)).collect::<Vec<_>>().join(" ")
                 ),
             ));
         }
@@ -353,7 +358,8 @@ impl Model for C17 {
                                 let w = bench.written(id)[before..].to_vec();
                                 log(&mut trace_in, &|| format!("{:?} (id {}) -> {:?}, client wrote {}", self.events[hist[idx - 1] as usize], l.pid, e, mr::hex(&w)));
                                 if l.kind == 2 && !fail {
-                                    if w != [0x62, 0x03, hi, lo, 0x00] {
+                                    let is_rel = matches!(mr::decode_client(&w), Ok((CPacket::Ack(a), n)) if n == w.len() && a.kind == mr::AckKind::PubRel && a.pid == l.pid && a.reason == 0);
+                                    if !is_rel {
                                         viol.push(("C17:pubrel-after-pubrec:differs".into(), format!("after PUBREC for {} the client wrote {}", l.pid, mr::hex(&w))));
                                     }
                                     release.push((l.pid, l.tag));
